@@ -46,7 +46,8 @@ def psbt_sighash_case(draw):
             "kind": kind, "key": draw(g.hexbytes(33, 33)), "script": draw(g.script_code(max_items=6, truncated_ok=False)), "value": draw(st.one_of(st.sampled_from([0, 1, 546, 10**8]), st.integers(0, 10**12))),
             "vout": draw(st.integers(0, 2)), "sequence": draw(st.sampled_from([0xFFFFFFFF, 0xFFFFFFFE, 0, 1, 0x400000])),
             "hash_type": draw(st.sampled_from(sorted(ref.TAPROOT_VALID))) if kind.startswith("p2tr") else draw(st.sampled_from(ECDSA_TYPES)),
-            "how": draw(st.sampled_from(["field", "param", "default"])), "leaf_version": draw(st.sampled_from([0xC0, 0xC2])), "control_tail": draw(st.integers(0, 3).flatmap(lambda m: g.hexbytes(32 + 32 * m, 32 + 32 * m))),
+            "how": draw(st.sampled_from(["field", "param", "param-over-field", "param-over-field", "default"])),
+            "field_type": draw(st.sampled_from(sorted(set(ref.TAPROOT_VALID) - {0}))) if kind.startswith("p2tr") else draw(st.sampled_from(ECDSA_TYPES)), "leaf_version": draw(st.sampled_from([0xC0, 0xC2])), "control_tail": draw(st.integers(0, 3).flatmap(lambda m: g.hexbytes(32 + 32 * m, 32 + 32 * m))),
             "both_utxos": draw(st.booleans()),
         })
     outs = [{"value": draw(st.integers(0, 10**6)), "spk": draw(st.sampled_from(["0014" + "11" * 20, "5120" + "22" * 32, "6a0401020304", "76a914" + "33" * 20 + "88ac", "a914" + "44" * 20 + "87", "51", "00"]))} for _ in range(draw(st.integers(1, 3)))]
@@ -114,6 +115,8 @@ def check_psbt_sighash(case):
                 setattr(pin, name, value)
             if inp["how"] == "field":
                 pin.sig_hash_type = inp["hash_type"]
+            elif inp["how"] == "param-over-field":
+                pin.sig_hash_type = inp.get("field_type", 1)  # the input asks for one type, the caller passes another (0x00 included): the caller's is the one hashed
         if case["psbt_version"] == 2:
             psbt = psbt.to_v2()
         psbt.assert_valid()
@@ -133,7 +136,7 @@ def check_psbt_sighash(case):
     ht = inp["hash_type"]
     taproot = kind.startswith("p2tr")
     eff = ht if inp["how"] != "default" else (0 if taproot else 1)
-    kw = {"hash_type": ht} if inp["how"] == "param" else {}
+    kw = {"hash_type": ht} if inp["how"] in ("param", "param-over-field") else {}
     if kind in ("p2pk", "p2pkh", "bare"):
         want = ref.legacy(bytes.fromhex(spent[idx]["spk"]), txd, idx, eff)
     elif kind == "p2sh":
